@@ -50,7 +50,7 @@ func runC12(c *Ctx) {
 			c.Count("testdata_workspaces", 1)
 		} else {
 			r := root.Fork(uint64(i))
-			sw = GenScopeWS(r, ScopeCfg{NFiles: r.Range(1, 3), Depth: r.Range(2, 3), Stats: r.Range(2, 5), JoinPct: -1})
+			sw = GenScopeWS(r, ScopeCfg{NFiles: r.Range(1, 3), Depth: r.Range(2, 3), Stats: r.Range(2, 5), JoinPct: -1, GluePct: -1})
 		}
 		c.Eval(1)
 		checkC12WS(c, sw, tag)
